@@ -42,6 +42,7 @@ type PropConfig struct {
 	StandIns []StandIn   `json:"standins"`
 	ReplayCases map[string]string `json:"replay_cases"` // func key -> comma separated replay case names
 	Explanation string   `json:"explanation"`
+	EffPkgs  []string    `json:"eff_pkgs"`   // packages whose functions get write-effect obligations (#eff contracts)
 	RingFuncs []string   `json:"ring_funcs"` // functions with #ring contracts (polynomial identities mod p)
 	CtRoots  []string    `json:"ct_roots"`   // functions with #ct contracts: roots of the secret-independence analysis
 	Extra    []string    `json:"extra_cmds"` // additional deciding commands (e.g. asmvc), run from /verif
@@ -398,6 +399,59 @@ func cmdCheck(args []string) {
 		sort.Strings(decl)
 		extraTrusted = append(extraTrusted, decl...)
 		ctInfo = map[string]interface{}{"roots": pc.CtRoots, "obligations": nct, "discharged": okct, "functions_reached": len(an.funcs), "declassifications": decl, "notes": an.notes}
+	}
+	// write-effect contracts (#eff)
+	if len(pc.EffPkgs) > 0 {
+		eng := engines[""]
+		if eng == nil {
+			var err error
+			eng, err = NewEngine(*repo, "", "verif")
+			if err != nil {
+				fmt.Printf("ERROR: cannot load %s: %v\n", *repo, err)
+				os.Exit(2)
+			}
+			if err := eng.LoadContracts(ContractFilesArch(*repo, "", filepath.Join(*vdir, "spec"))); err != nil {
+				fmt.Println("ERROR: contracts:", err)
+				os.Exit(2)
+			}
+			engines[""] = eng
+		}
+		ea := NewEffAnalysis(eng)
+		ne, oke := 0, 0
+		// every #eff contract must still bind
+		for key := range eng.contracts {
+			if strings.HasSuffix(key, "#eff") && !strings.HasPrefix(key, "type ") {
+				if eng.funcs[strings.TrimSuffix(key, "#eff")] == nil {
+					p := writeReplay(map[string]interface{}{"property": id, "stale_eff_contract": key})
+					lines = append(lines, fmt.Sprintf("STALE-CONTRACT property=%s %s names no function", id, key))
+					lines = append(lines, fmt.Sprintf("VIOLATION property=%s replay=%s write-effect contract %s no longer binds no-failing-input-found", id, p, key))
+					violations++
+				}
+			}
+		}
+		for _, o := range ea.Check(pc.EffPkgs) {
+			ne++
+			if o.OK {
+				oke++
+				if oke%29 == 1 && len(samples) < 10 {
+					samples = append(samples, map[string]string{"obligation": o.Name, "pos": o.Pos, "solver": "write-effect analysis (govc eff)"})
+				}
+				continue
+			}
+			if fd := matchFinding(findings, id, o.Name); fd != nil {
+				known++
+				oke++
+				lines = append(lines, fmt.Sprintf("KNOWN-FINDING: property=%s %s (obligation %s)", id, fd.Text, o.Name))
+				continue
+			}
+			p := writeReplay(map[string]interface{}{"property": id, "obligation": o.Name, "position": o.Pos, "verifier_output": o.What})
+			lines = append(lines, fmt.Sprintf("VIOLATION property=%s replay=%s obligation=%s at %s: %s no-failing-input-found", id, p, o.Name, o.Pos, truncate(o.What, 220)))
+			violations++
+		}
+		total += ne
+		discharged += oke
+		solverCount["write-effect analysis (govc eff)"] += oke
+		extraFuncs = append(extraFuncs, fmt.Sprintf("every non-test function of packages %s (write-effect obligations)", strings.Join(pc.EffPkgs, ", ")))
 	}
 	// ring-mode contracts: polynomial identities of straight-line field code
 	if len(pc.RingFuncs) > 0 {
